@@ -1,4 +1,5 @@
 """C06 Multi-core runs give the single-core result under every schedule."""
+import base64
 import json
 import os
 import random
@@ -113,7 +114,8 @@ def policies(ctx, nw, count):
             w = {"M": 5.0, f"W{rng.randrange(nw)}": 4.0}
         else:
             w = {f"W{i}": rng.choice((0.05, 1, 5)) for i in range(nw)}
-        pols.append((f"random(seed={seed},weights={w})", vmp.RandomPolicy(seed, w, ready_subsets=(k % 2 == 0))))
+        pols.append((f"random(seed={seed},weights={w})", vmp.RandomPolicy(seed, w, ready_subsets=(k % 2 == 0)),
+                     dict(seed=seed, weights=w, ready_subsets=(k % 2 == 0))))
     return pols
 
 
@@ -139,21 +141,23 @@ def run(ctx):
                 nw = rng.choice((2, 2, 3, 4))
                 bs = rng.choice((600, 900, 1500, 2500, 100000))
                 nc = RC.count_chunks([inputs[f] for f in infiles], bs)
-                polname, pol = policies(ctx, nw, 1)[0] if k else ("random(seed=0)", vmp.RandomPolicy(0))
+                polname, pol, polpar = policies(ctx, nw, 1)[0] if k else ("random(seed=0)", vmp.RandomPolicy(0), dict(seed=0, weights=None, ready_subsets=False))
                 argv = ["-j", str(nw), "--buffer-size", str(bs)] + base
                 par, sched = RC.run_virtual(argv, inputs, os.path.join(ctx.scratch, "par"), pol)
                 executions += 1
                 tid = len(records)
                 case = dict(option_set=oname, argv=argv, policy=polname, nw=nw, nc=nc, n_reads=len(reads))
+                rcase = dict(case, base=base, policy_params=polpar,
+                             inputs={f: base64.b64encode(d).decode() for f, d in inputs.items()})
                 if sched.deadlock:
                     ctx.violation("TerminatesUnderEverySchedule", f"C06:deadlock:{oname}",
-                                  dict(case, deadlock=sched.deadlock, events=[f"{e['role']}:{e['ev']}" for e in sched.log][-30:]))
+                                  dict(case, deadlock=sched.deadlock, events=[f"{e['role']}:{e['ev']}" for e in sched.log][-30:]), case=rcase)
                     continue
                 if isinstance(par, Exception):
                     raise par
                 for clause, detail in compare(ser, par):
                     ctx.violation(clause, f"C06:{clause}:{oname}", dict(case, detail=detail,
-                                  schedule=[f"{e['role']}:{e['ev']}" for e in sched.log]), case=case)
+                                  schedule=[f"{e['role']}:{e['ev']}" for e in sched.log]), case=rcase)
                 records.append(RC.trace_record(tid, sched.log, nw, nc, par.exit, ["none"]))
                 meta[tid] = case
                 if k == 1 and variant == 0:
@@ -210,8 +214,10 @@ def replay_tlc_behaviours(ctx, rng):
             argv = ["-j", str(nw), "--buffer-size", str(bs)] + base
             par, sched = RC.run_virtual(argv, inputs, os.path.join(ctx.scratch, "par"), pol)
             case = dict(option_set=oname, argv=argv, nw=nw, nc=nc, behaviour=[" ".join(map(str, x)) for x in beh])
+            rcase = dict(case, base=base, script=dict(beh=beh, seed=bi),
+                         inputs={f: base64.b64encode(d).decode() for f, d in inputs.items()})
             if sched.deadlock or isinstance(par, Exception):
-                ctx.violation("TerminatesUnderEverySchedule", f"C06:deadlock:{oname}:tlc-behaviour", dict(case, deadlock=sched.deadlock))
+                ctx.violation("TerminatesUnderEverySchedule", f"C06:deadlock:{oname}:tlc-behaviour", dict(case, deadlock=sched.deadlock), case=rcase)
                 continue
             done += 1
             ok = pol.mismatch is None and pol.ptr == len(steps) and len(sched.log) == len(beh) and \
@@ -222,13 +228,34 @@ def replay_tlc_behaviours(ctx, rng):
                     examples.append(dict(case, mismatch=pol.mismatch, consumed=pol.ptr, of=len(steps),
                                          events=[f"{e['role']}:{e['ev']}" for e in sched.log]))
             for clause, detail in compare(ser, par):
-                ctx.violation(clause, f"C06:{clause}:{oname}", dict(case, detail=detail), case=case)
+                ctx.violation(clause, f"C06:{clause}:{oname}", dict(case, detail=detail), case=rcase)
             if bi == 0:
                 ctx.sample(dict(tlc_behaviour_replayed=case["behaviour"][:30], option_set=oname), limit=6)
     ctx.traces += done
     ctx.extra["tlc_behaviours_replayed"] = done
     ctx.extra["tlc_behaviours_diverged"] = diverged
     ctx.extra["tlc_behaviour_divergence_examples"] = examples
+
+
+class _P:
+    pass
+
+
+def _as_result(r, ser):
+    """the observables of a real-process run in the shape compare() expects"""
+    par = _P()
+    par.exit, par.errors, par.exception, par.stdout = r["exit"], [r["stderr"][-200:]], None, ser.stdout
+    par.files = {}
+    par.json = None
+    for name, data in r["files"].items():
+        if name.endswith(".json"):
+            try:
+                par.json = json.loads(data)
+            except Exception:
+                par.json = None
+        else:
+            par.files[name] = decompress(name, data)
+    return par
 
 
 def real_runs(ctx, rng):
@@ -254,26 +281,13 @@ def real_runs(ctx, rng):
         argv = ["-j", str(nw), "--buffer-size", str(bs)] + base
         r = RC.real_run(argv, inputs, os.path.join(ctx.scratch, "real"), os.path.join(ctx.scratch, "realtrace"), timeout=120)
         case = dict(option_set=oname, argv=argv, nw=nw, nc=nc, real_processes=True)
+        rcase = dict(case, base=base, inputs={f: base64.b64encode(d).decode() for f, d in inputs.items()})
         if r["timed_out"]:
-            ctx.violation("TerminatesUnderEverySchedule", f"C06:timeout:{oname}:real-process", case)
+            ctx.violation("TerminatesUnderEverySchedule", f"C06:timeout:{oname}:real-process", case, case=rcase)
             continue
-
-        class _P:
-            pass
-        par = _P()
-        par.exit, par.errors, par.exception, par.stdout = r["exit"], [r["stderr"][-200:]], None, ser.stdout
-        par.files = {}
-        par.json = None
-        for name, data in r["files"].items():
-            if name.endswith(".json"):
-                try:
-                    par.json = json.loads(data)
-                except Exception:
-                    par.json = None
-            else:
-                par.files[name] = decompress(name, data)
+        par = _as_result(r, ser)
         for clause, detail in compare(ser, par):
-            ctx.violation(clause, f"C06:{clause}:{oname}", dict(case, detail=detail), case=case)
+            ctx.violation(clause, f"C06:{clause}:{oname}", dict(case, detail=detail), case=rcase)
         ok, det = RC.validate_mp_run(ctx, r["logs"], nw, nc, ["none"])
         accepted += ok
         rejected += (not ok)
@@ -285,6 +299,45 @@ def real_runs(ctx, rng):
 
 
 def replay(ctx, path):
+    """Re-execute the stored case on the current tree: one-core run, then the same command line with -j under the
+    virtual scheduler with the stored policy seed; judged by the same end-to-end clauses."""
     rp = json.load(open(path))
-    print(json.dumps(rp["observation"], indent=1)[:3000])
-    ctx.violation(rp["clause"], rp["signature"], rp["observation"])
+    case = rp.get("case") or {}
+    if "inputs" not in case:
+        print("replay: this file carries no re-executable case (real-process run or older file); stored observation:")
+        print(json.dumps(rp["observation"], indent=1)[:3000])
+        raise SystemExit(2)
+    inputs = {f: base64.b64decode(d) for f, d in case["inputs"].items()}
+    oname = case["option_set"]
+    ser = run_cli(case["base"], inputs, os.path.join(ctx.scratch, "ser"))
+    brief = {k: v for k, v in case.items() if k not in ("inputs", "script")}
+    if case.get("real_processes"):
+        # OS scheduling cannot be repeated exactly: the command is run again several times as real processes
+        for _ in range(5):
+            r = RC.real_run(case["argv"], inputs, os.path.join(ctx.scratch, "real"), os.path.join(ctx.scratch, "realtrace"), timeout=120)
+            if r["timed_out"]:
+                ctx.violation("TerminatesUnderEverySchedule", f"C06:timeout:{oname}:real-process", brief)
+                return
+            par = _as_result(r, ser)
+            for clause, detail in compare(ser, par):
+                ctx.violation(clause, f"C06:{clause}:{oname}", dict(brief, detail=detail))
+            if ctx.violations:
+                return
+        print("replay: 5 real multi-process executions of the stored command agree with the one-core run")
+        return
+    if "script" in case:
+        steps, readies = RC.script_of(case["script"]["beh"])
+        pol = vmp.ScriptPolicy(steps, seed=case["script"]["seed"], ready_lists=readies)
+        case["policy"] = "the stored TLC behaviour"
+    else:
+        pp = case["policy_params"]
+        pol = vmp.RandomPolicy(pp["seed"], pp["weights"], ready_subsets=pp["ready_subsets"])
+    par, sched = RC.run_virtual(case["argv"], inputs, os.path.join(ctx.scratch, "par"), pol)
+    if sched.deadlock:
+        ctx.violation("TerminatesUnderEverySchedule", f"C06:deadlock:{oname}", dict(brief, deadlock=sched.deadlock))
+        return
+    if isinstance(par, Exception):
+        raise par
+    for clause, detail in compare(ser, par):
+        ctx.violation(clause, f"C06:{clause}:{oname}", dict(brief, detail=detail))
+    print(f"replay: {' '.join(case['argv'])} re-executed under {case['policy']}: {len(ctx.violations)} clause(s) rejected")
